@@ -1,0 +1,15 @@
+//go:build verif
+
+package watcher
+
+// VerifGate is a verification hook (build tag verif). When set, FileChanged calls
+// it after releasing the mutex and before deciding whether to broadcast: dir is the
+// directory just recorded, n the number of pending directories seen under the lock.
+// It may only delay the caller (gate / yield); it must not touch p.
+var VerifGate func(p *Changes, dir string, n int)
+
+func verifGate(p *Changes, dir string, n int) {
+	if f := VerifGate; f != nil {
+		f(p, dir, n)
+	}
+}
